@@ -52,7 +52,7 @@ class C03(Prop):
     RULE = ("(a) one-edit corruptions (delete/insert/replace/duplicate/swap/truncate) of generated valid texts; (b) one generator per "
             "must-reject class of the statement (bad fragment substituted for a drawn node of a valid document); (c) ALL token "
             "sequences over 11 tokens up to length 5 (quick) / 7 (thorough), enumerated in C and partitioned over the workers; "
-            "(d) libFuzzer fz_parse with the recogniser as differential oracle; (e) nesting limit+1..10^6. Verdict from an "
+            "(d) libFuzzer fz_parse with the recogniser as differential oracle; (e) nesting limit+1..10^6; every parse runs over dead stack filled with a drawn byte value (untouched, '7', '1', 'e'). Verdict from an "
             "independent dialect recogniser: INVALID => every entry point returns NULL and the ledger is empty; STRICT => accepted. "
             "non-trivial = INVALID text whose first offending byte is at offset >= 1; distinct by text hash (by construction "
             "for the enumeration)")
